@@ -181,8 +181,18 @@ def gen_server_trace(rng, tid):
                 dict(named, op="purge_topic"), {"op": "purge_stream", "stream": sname}, dict(named, op="delete_topic"),
                 {"op": "create_topic", "stream": sname, "name": tname, "parts": 1},
                 {"op": "send", "stream": sname, "topic": tname, "part": {"kind": "key", "key": [7]}, "msgs": [{"id": 3, "len": 2}]}]
+    # optional fields of the user commands, every combination, observed through get_user
+    uname = "wire-user-" + rng.choice("abc")
+    exercise += [{"op": "create_user", "user": uname, "password": "wire-password"},
+                 {"op": "update_user", "uid": uname, "inactive": True}, {"op": "get_user", "uid": uname},
+                 {"op": "update_user", "uid": uname, "name": uname + "-2"}, {"op": "get_user", "uid": uname + "-2"},
+                 {"op": "update_user", "uid": uname + "-2", "name": uname, "inactive": False}, {"op": "get_user", "uid": uname},
+                 {"op": "delete_user", "uid": uname}]
+    expect = {len(exercise) - 6: {"some": True, "name": uname, "active": False}, len(exercise) - 4: {"some": True, "name": uname + "-2", "active": False},
+              len(exercise) - 2: {"some": True, "name": uname, "active": True}}
     pre = [{"op": "login", "c": "member", "user": "iggy", "password": "iggy"}, dict(named, op="join_group", group=gname, c="member")]
-    observe = [{"op": "get_streams"}, dict(named, op="get_topic"), dict(named, op="poll", partition=1, kind="offset", value=0, count=10), {"op": "get_users"}]
+    observe = [{"op": "get_streams"}, dict(named, op="get_topic"), dict(named, op="poll", partition=1, kind="offset", value=0, count=10), {"op": "get_users"},
+               {"op": "get_topics", "stream": sname}]
     garbage = []
     for _ in range(rng.randrange(6, 14)):
         kind = rng.choice(["short", "huge_len", "bad_code", "trunc_payload", "random", "bad_ident"])
@@ -200,8 +210,16 @@ def gen_server_trace(rng, tid):
         else:
             h = bytes(rng.randrange(256) for _ in range(rng.randrange(8, 64))).hex()
         garbage.append({"op": "raw", "hex": h, "login": login})
+    # frames that decode but do not pass the command's validation (a client library never sends them): they must be refused and
+    # must not be performed
+    short_user = bytes([2]) + b"ab" + bytes([11]) + b"passwordxyz" + bytes([1, 0])
+    many_parts = bytes([1, 4, 1, 0, 0, 0]) + struct.pack("<IIBQQB", 0, rng.choice([1001, 5000, 4294967295]), 1, 0, 0, 0) + bytes([2]) + b"zz"
+    zero_repl_name = bytes([1, 4, 1, 0, 0, 0]) + struct.pack("<IIBQQB", 0, 1, 1, 0, 0, 0) + bytes([0])
+    for code, payload in ((33, short_user), (302, many_parts), (302, zero_repl_name), (33, bytes([3]) + b"abc" + bytes([2]) + b"pw" + bytes([1, 0]) + bytes(4))):
+        garbage.insert(rng.randrange(len(garbage) + 1), {"op": "raw", "hex": frame(code, payload), "login": True})
     ops = setup + pre + exercise + observe + garbage + observe + [{"op": "ping"}, {"op": "ping", "c": "member"}]
     marks = {"exercise": (len(setup) + len(pre), len(setup) + len(pre) + len(exercise)),
+             "expect": {len(setup) + len(pre) + k: v for k, v in expect.items()},
              "obs1": (len(setup) + len(pre) + len(exercise), len(setup) + len(pre) + len(exercise) + len(observe)),
              "obs2": (len(ops) - 2 - len(observe), len(ops) - 2)}
     return {"id": tid, "cfg": {"req": 1000, "seg_size": 1000000, "cache": False}, "ops": ops, "marks": marks}
@@ -226,6 +244,12 @@ def run_server(out, tier, seed):
                 bad += 1
                 out.violation("e2e-%s-%d" % (t["id"], i), {"kind": "spec-monitor", "mode": "srv", "trace": {"id": t["id"], "cfg": t["cfg"], "ops": t["ops"][:i + 1]},
                                                           "response": outs[i], "what": "a well-formed request with boundary-length names is not served"})
+                break
+        for i, want in t["marks"]["expect"].items():
+            if any(outs[i].get(k) != v for k, v in want.items()):
+                bad += 1
+                out.violation("e2e-fields-%s-%d" % (t["id"], i), {"kind": "spec-monitor", "mode": "srv", "trace": {"id": t["id"], "cfg": t["cfg"], "ops": t["ops"][:i + 1]},
+                                                                 "response": outs[i], "expected": want, "what": "an optional field of a request was lost or misread between client and server"})
                 break
         frames += sum(1 for o in t["ops"] if o["op"] == "raw")
         o1 = outs[t["marks"]["obs1"][0]:t["marks"]["obs1"][1]]
